@@ -1005,6 +1005,13 @@ func (s *Store) monitorLeaseAsPrimary(ctx context.Context, lease Lease) error {
 				return err
 			} else if err != nil {
 				log.Printf("%s: handoff unsuccessful, continuing as primary", FormatNodeID(s.id))
+
+				// The wait restarts on every loop iteration, so keep the next
+				// renewal where it was. Otherwise repeated handoff requests
+				// postpone it until the lease has expired.
+				if waitDur = time.Until(lease.RenewedAt().Add(lease.TTL() / 2)); waitDur < 0 {
+					waitDur = 0
+				}
 				continue
 			}
 			closeLeaseOnExit = false
